@@ -4,6 +4,7 @@ import (
 	"context"
 	"fmt"
 	"io"
+	"strings"
 	"sync"
 
 	goat "github.com/avos-io/goat"
@@ -41,7 +42,7 @@ func c17List(tier string) []c17Case {
 			out = append(out, c17Case{f, v, k, tierN(tier, 30, 120), []int{1, 4, 16}[i%3]})
 		}
 	}
-	for _, v := range []string{"source-equal", "source-different", "header-absent", "source-empty", "source-different-with-proxy-record", "source-empty-with-proxy-record", "source-equal-with-empty-route", "source-different-relayed-by-sender", "mixed"} {
+	for _, v := range []string{"source-equal", "source-different", "header-absent", "source-empty", "source-different-with-proxy-record", "source-empty-with-proxy-record", "source-equal-with-empty-route", "source-different-relayed-by-sender", "source-different-translated-onto-sender", "header-absent-from-anonymous-peer", "mixed"} {
 		add("source", v, 3)
 	}
 	for _, v := range []string{"stuck-writer", "failing-reader", "failing-writer", "dial-error", "slow-dial"} {
@@ -117,6 +118,8 @@ func c17Run(tier string, seed int64, idx int) *core.Result {
 		if hd.Destination == "hold" && c.Variant == "serve-loop-held-in-intercepter" {
 			gates.Wait("serve-loop")
 		}
+		// address translation may also canonicalise the source (private names onto public ones)
+		hd.Source = strings.TrimPrefix(hd.Source, "alias-of-")
 		return nil
 	}, func(id string, reason error) {
 		mu.Lock()
@@ -202,6 +205,7 @@ func c17Run(tier string, seed int64, idx int) *core.Result {
 		return true
 	}
 
+	var anon *c17Peer
 	switch c.Family {
 	case "source":
 		if next() {
@@ -238,11 +242,24 @@ func c17Run(tier string, seed int64, idx int) *core.Result {
 					e = env("", "a1", 2500+n)
 					e.Header.ProxyRecord = []string{"p1", "p2"}
 					e.Header.ProxyNext = []string{"a1"}
+				case "source-different-translated-onto-sender":
+					// the claimed source is not the name a0 is attached under, although the address
+					// translation would map it onto that name: the rule is about what the peer sent
+					e = env("alias-of-a0", "a1", 1800+n)
 				default:
 					e = &wire.Rpc{Id: uint64(3000 + n), Body: &goatorepo.Body{Data: []byte{1}}}
 				}
-				core.Cursor(fmt.Sprintf("proxy peer a0 sends envelope kind %s", kind))
-				if !write(a0, e, "hostile envelope") {
+				sender := a0
+				if kind == "header-absent-from-anonymous-peer" {
+					// names are optional: a peer attached under the empty name sends an envelope without header
+					if anon == nil {
+						anon = mkPeer("", true)
+						px.AddClient("", anon.link.B)
+					}
+					sender = anon
+				}
+				core.Cursor(fmt.Sprintf("proxy peer %q sends envelope kind %s", sender.name, kind))
+				if !write(sender, e, "hostile envelope") {
 					break
 				}
 			}
@@ -484,7 +501,7 @@ func init() {
 	core.Register(&core.Prop{
 		ID:             "C17",
 		Level:          "fault_enumeration",
-		Rule:           "families: (source) a peer attached as a0 sends envelopes whose source is equal / different (claims a1) / empty / whose header is absent, then good ones; (isolation) a third peer in the role {stuck writer, failing reader, failing writer, dial error, dial blocking on a gate} while envelope-by-envelope traffic a0<->a1 must keep arriving; (reattach) a1 re-attached before / after the old connection's read (or write) fails; (cancel-busy) the context is cancelled while the serve loop is held inside the rewriting function or the disconnect callback and 2..8 peer read loops are waiting to hand it an envelope; each of the first three combined with cancellation of the proxy's context after every step (quick: 4 positions) and at the end, after which Serve must have returned and no goroutine with Proxy/proxyClient frames may remain at a final state. Each child runs one case (the proxy's goroutines must never leak into another case). Distinct = case tuples; all non-trivial.",
+		Rule:           "families: (source) a peer attached as a0 sends envelopes whose source is equal / different (claims a1; also a source that the proxy's address translation would map onto a0) / empty / whose header is absent (also from a peer attached under the empty name), then good ones; (isolation) a third peer in the role {stuck writer, failing reader, failing writer, dial error, dial blocking on a gate} while envelope-by-envelope traffic a0<->a1 must keep arriving; (reattach) a1 re-attached before / after the old connection's read (or write) fails; (cancel-busy) the context is cancelled while the serve loop is held inside the rewriting function or the disconnect callback and 2..8 peer read loops are waiting to hand it an envelope; each of the first three combined with cancellation of the proxy's context after every step (quick: 4 positions) and at the end, after which Serve must have returned and no goroutine with Proxy/proxyClient frames may remain at a final state. Each child runs one case (the proxy's goroutines must never leak into another case). Distinct = case tuples; all non-trivial.",
 		Plan:           func(tier string, seed int64) int { return len(c17List(tier)) },
 		ThoroughRounds: 8,
 		Run:            c17Run,
